@@ -522,6 +522,222 @@ GEN_CONTRACTS += [
 ]
 
 
+# ------------------------------------------------------------------ link set-up: who is keyed how, who says which prologue
+CTR = "wormhole/_dilation/connector.py"
+MGR = "wormhole/_dilation/manager.py"
+NOISE_NAME = "b'Noise_NNpsk0_25519_ChaChaPoly_BLAKE2s'"          # docs/dilation-protocol.md: NNpsk0, the PSK is the dilation key
+P_LEADER = "b'Magic-Wormhole Dilation Handshake v1 Leader\\n\\n'"      # docs/dilation-protocol.md, "Connection Negotiation"
+P_FOLLOWER = "b'Magic-Wormhole Dilation Handshake v1 Follower\\n\\n'"
+IS_LEADER = "is_role(self._role, 'LEADER')"
+DCP_NEW_FIELDS = {"__state": "state", "_eventual_queue": "obj[EventualQueueB]", "_role": "opaque[Role]", "_description": "str",
+                  "_connector": "obj[Connector]", "_noise": "obj[Noise]", "_outbound_prologue": "bytes",
+                  "_inbound_prologue": "bytes", "_use_relay": "bool", "_relay_handshake": "opt[bytes]",
+                  "_manager": "opt[obj[ManagerB]]", "_inbound_record_queue": f"seq[{RECORD}]", "_can_send_records": "bool",
+                  "_disconnected": "obj[OneShotObserver]"}
+DCP_CM_FIELDS = {"__state": "state", "transport": "obj[Transport]", "_role": "opaque[Role]", "_noise": "obj[Noise]",
+                 "_outbound_prologue": "bytes", "_inbound_prologue": "bytes", "_use_relay": "bool",
+                 "_relay_handshake": "opt[bytes]"}
+REC = "self._record"
+FRM = "self._record._framer"
+
+HS_CONTRACTS = [
+    Contract(f"{CON}:DilatedConnectionProtocol.use_relay", props=[PROP], params={"relay_handshake": "bytes"},
+             self_fields={"_use_relay": "bool", "_relay_handshake": "opt[bytes]"}, modifies=["_use_relay", "_relay_handshake"],
+             ensures=[("relay-handshake-configured", "self._use_relay and self._relay_handshake is not None and "
+                                                     "self._relay_handshake == relay_handshake")],
+             internal_ensures=[("nothing-is-written-yet", "len(bcall_names()) == 0")],
+             note="the only place that sets _use_relay: it always comes with the handshake bytes (connectionMade's precondition)"),
+    Contract(f"{CON}:DilatedConnectionProtocol.connectionMade", props=[PROP, "C11"], params={}, self_fields=DCP_CM_FIELDS,
+             requires=["has_role(self._role)", "not self._use_relay or self._relay_handshake is not None"],
+             modifies=["_record"],
+             ensures=[("state-kept", "state_index(self) == old(state_index(self))"),
+                      ("record-layer-has-this-link's-role", f"{REC}._role is self._role"),
+                      ("role-set-leader-iff-LEADER",
+                       f"in_state({REC}, 'want_prologue_leader') == {IS_LEADER} and "
+                       f"in_state({REC}, 'want_prologue_follower') == (not {IS_LEADER})"),
+                      ("framer-told-what-to-expect",
+                       f"{FRM}._inbound_prologue == self._inbound_prologue and {FRM}._outbound_prologue == self._outbound_prologue"),
+                      ("framer-waits-for-the-relay-reply-iff-a-relay-handshake-is-configured",
+                       f"in_state({FRM}, 'want_relay') == self._use_relay and in_state({FRM}, 'want_prologue') == (not self._use_relay)"),
+                      ("relay-reply-expected-is-ok-newline",
+                       f"implies(self._use_relay, {FRM}._expected_relay_handshake == b'ok\\n' and "
+                       f"{FRM}._outbound_relay_handshake == self._relay_handshake)"),
+                      ("nothing-buffered-no-frames-yet", f"{FRM}._buffer == b'' and not {FRM}._can_send_frames"),
+                      ("noise-untouched", "self._noise.failed == old(self._noise.failed) and self._noise.tx == old(self._noise.tx) "
+                                          "and self._noise.rx == old(self._noise.rx)")] +
+                     [(f"establishes-link-invariant-{i}", x) for i, x in enumerate(LINK_INV)],
+             internal_ensures=[
+                 ("exactly-one-write-relay-handshake-if-configured-else-this-role's-prologue",
+                  "bcalls('write') == 1 and implies(self._use_relay, bcall_arg('write', 0, 0) == self._relay_handshake) and "
+                  "implies(not self._use_relay, bcall_arg('write', 0, 0) == self._outbound_prologue)"),
+                 ("nothing-else-happens-but-starting-the-noise-handshake-state",
+                  "bcall_names() == ['start_handshake', 'write']"),
+                 ("the-write-goes-to-this-transport", "bcall_recv('write', 0) is self.transport and "
+                                                      "bcall_recv('start_handshake', 0) is self._noise"),
+                 # object identities are callee-side clauses (a caller's view of a result object is a fresh object)
+                 ("record-layer-uses-this-link's-noise-object", f"{REC}._noise is self._noise"),
+                 ("framer-writes-to-this-transport", f"{FRM}._transport is self.transport")],
+             note="through the real _Framer / _Record tables: with a relay handshake configured the relay handshake is the one "
+                  "thing written and the framer waits for the relay's reply (the prologue follows on got_relay_ok, see "
+                  "add_and_parse: iter_own_bcall_arg('write') == _outbound_prologue); without, the prologue of this role is the "
+                  "one thing written. Establishes every precondition of dataReceived that concerns _record"),
+    Contract(f"{CON}:DilatedConnectionProtocol.send_record", props=[PROP], params={"record": RECORD},
+             self_fields={"_can_send_records": "bool", "_record": "obj[_Record]"},
+             requires=["record_in_range(record)", "self._record._framer._can_send_frames", "payload_len(record) < 4000000000"],
+             raises_exactly={"AssertionError": "not self._can_send_records"},
+             ensures_raise={"AssertionError": [("nothing-sent", "n_calls('_Record.send_record') == 0 and len(bcall_names()) == 0")]},
+             modifies=["_record._noise.tx"],
+             internal_ensures=[("handed-to-the-record-layer-once-unchanged",
+                                "n_calls('_Record.send_record') == 1 and call_arg('_Record.send_record', 0, 1) == record and "
+                                "call_arg('_Record.send_record', 0, 0) is self._record")],
+             note="the manager's records enter the L2 pipeline unchanged and exactly once; refused before select()"),
+    Contract(f"{CTR}:build_noise", props=[PROP], params={}, returns="obj[Noise]",
+             ensures=[("fresh-nonce-counters", "result.tx == 0 and result.rx == 0 and not result.failed")],
+             internal_ensures=[("pattern-is-NNpsk0-25519-ChaChaPoly-BLAKE2s",
+                                f"bcall_names() == ['from_name'] and bcall_arg('from_name', 0, 0) == {NOISE_NAME}"),
+                               ("result-is-that-connection", "result is noise_made(0)")]),
+    Contract(f"{CTR}:Connector.build_protocol", props=[PROP, "C11"], params={"addr": "opaque[address]", "description": "str"},
+             self_fields={"_dilation_key": "bytes", "_role": "opaque[Role]", "_eventual_queue": "obj[EventualQueueB]"},
+             modifies=[], returns="obj[DilatedConnectionProtocol]",
+             ensures=[("outbound-prologue-is-this-role's", f"result._outbound_prologue == ite({IS_LEADER}, {P_LEADER}, {P_FOLLOWER})"),
+                      ("inbound-prologue-is-the-other-role's", f"result._inbound_prologue == ite({IS_LEADER}, {P_FOLLOWER}, {P_LEADER})"),
+                      ("protocol-knows-role-and-description", "result._role is self._role and result._description == description"),
+                      ("new-protocol-is-unselected-without-manager-or-relay",
+                       "in_state(result, 'unselected') and result._manager is None and not result._can_send_records and "
+                       "len(result._inbound_record_queue) == 0 and not result._use_relay"),
+                      ("noise-has-rejected-nothing", "not result._noise.failed and result._noise.tx == 0 and result._noise.rx == 0")],
+             internal_ensures=[
+                 ("protocol-reports-to-this-connector", "result._connector is self and result._eventual_queue is self._eventual_queue"),
+                 ("one-noise-connection-of-pattern-NNpsk0", f"bcalls('from_name') == 1 and bcall_arg('from_name', 0, 0) == {NOISE_NAME} "
+                                                            "and result._noise is noise_made(0)"),
+                 ("psk-is-the-dilation-key", "bcalls('set_psks') == 1 and bcall_arg('set_psks', 0, 0) == self._dilation_key and "
+                                             "bcall_recv('set_psks', 0) is noise_made(0)"),
+                 ("leader-initiates-follower-responds",
+                  f"bcalls('set_as_initiator') == ite({IS_LEADER}, 1, 0) and bcalls('set_as_responder') == ite({IS_LEADER}, 0, 1) and "
+                  f"implies({IS_LEADER}, bcall_recv('set_as_initiator', 0) is noise_made(0)) and "
+                  f"implies(not {IS_LEADER}, bcall_recv('set_as_responder', 0) is noise_made(0))"),
+                 ("keyed-and-role-bound-before-anything-else-and-nothing-more",
+                  f"bcall_names() == ['from_name', 'set_psks', ite({IS_LEADER}, 'set_as_initiator', 'set_as_responder')]")],
+             note="role-to-pattern binding: both ends run NNpsk0 with the same PSK, the Leader as initiator and the Follower as "
+                  "responder (two initiators or two responders never complete a handshake; a peer without the PSK fails "
+                  "read_message); the prologues are the documented pair, crossed"),
+    Contract(f"{MGR}:Dilator.got_key", props=[PROP], params={"key": "bytes"},
+             self_fields={"_manager": "opt[obj[ManagerB]]", "_pending_dilation_key": "opt[bytes]"},
+             modifies=["_pending_dilation_key"],
+             ensures=[("without-a-manager-the-dilation-key-is-kept-for-it",
+                       "implies(old(self._manager) is None, self._pending_dilation_key is not None and "
+                       "self._pending_dilation_key == hkdf(key, 32, b'dilation-v1'))"),
+                      ("with-a-manager-nothing-is-kept",
+                       "implies(old(self._manager) is not None, self._pending_dilation_key is old(self._pending_dilation_key))")],
+             internal_ensures=[
+                 ("the-manager-gets-HKDF-of-the-wormhole-key-with-purpose-dilation-v1-32-bytes",
+                  "implies(old(self._manager) is not None, bcall_names() == ['got_dilation_key'] and "
+                  "bcall_arg('got_dilation_key', 0, 0) == hkdf(key, 32, b'dilation-v1'))"),
+                 ("without-a-manager-nobody-is-called", "implies(old(self._manager) is None, len(bcall_names()) == 0)")],
+             note="the Noise PSK of every L2 link (Connector._dilation_key, handed to noise.set_psks by build_protocol) is "
+                  "derive_key(wormhole key, b'dilation-v1', 32); derive_key by its C01 contract (HKDF, purpose = info field)"),
+    Contract("lemma:prologues_cross_match", props=[PROP, "C11"], source_module=CTR,
+             params={"leader": "obj[Connector]", "follower": "obj[Connector]", "ta": "obj[Transport]", "tb": "obj[Transport]",
+                     "addr": "opaque[address]", "description": "str", "more": "bytes"},
+             source_text="""
+             def prologues_cross_match(leader, follower, ta, tb, addr, description, more):
+                 pa = leader.build_protocol(addr, description)
+                 pb = follower.build_protocol(addr, description)
+                 pa.transport = ta                       # Protocol.makeConnection
+                 pb.transport = tb
+                 pa.connectionMade()
+                 pb.connectionMade()
+                 fa = pa._record._framer
+                 fb = pb._record._framer
+                 a_wrote = bcall_arg("write", 0, 0)
+                 b_wrote = bcall_arg("write", 1, 0)
+                 out = []
+                 fb._buffer = a_wrote + more            # B receives what A wrote, followed by anything
+                 out.append(fb._get_expected("prologue", fb._inbound_prologue))
+                 out.append(fb._buffer)
+                 fa._buffer = b_wrote + more
+                 out.append(fa._get_expected("prologue", fa._inbound_prologue))
+                 out.append(fa._buffer)
+                 for f, w in ((fa, a_wrote), (fb, b_wrote)):      # each side's own prologue reflected back at it
+                     f._buffer = w + more
+                     try:
+                         f._get_expected("prologue", f._inbound_prologue)
+                         out.append("accepted")
+                     except Disconnect:
+                         out.append("rejected")
+                 return out
+             """,
+             requires=["is_role(leader._role, 'LEADER') and is_role(follower._role, 'FOLLOWER')"],
+             ensures=[("follower-accepts-exactly-what-the-leader-wrote", "result[0] == True and result[1] == more"),
+                      ("leader-accepts-exactly-what-the-follower-wrote", "result[2] == True and result[3] == more"),
+                      ("a-reflected-prologue-is-rejected-on-both-roles", "result[4] == 'rejected' and result[5] == 'rejected'")],
+             note="the REAL bodies of build_protocol, connectionMade (real _Framer / _Record tables) and _get_expected run in this "
+                  "harness, none by contract: what role A's connectionMade writes is consumed as the prologue by role B's framer, "
+                  "and A's own framer refuses it (Disconnect), whatever follows it on the wire"),
+]
+
+
+# build_protocol is verified with the two-line build_noise inlined (the pattern name is read off the real call)
+HS_INLINE = {f"{CTR}:Connector.build_protocol": (f"{CTR}:build_noise",),
+             "lemma:prologues_cross_match": (f"{CTR}:build_noise", f"{CTR}:Connector.build_protocol",
+                                             f"{CON}:DilatedConnectionProtocol.connectionMade", f"{CON}:_Framer._get_expected")}
+
+
+def noise_from_name(it, recv, meth, args, kwargs, fr):
+    """assumed (noiseprotocol): NoiseConnection.from_name(name) returns a new connection object for that protocol name;
+    its nonce counters start at 0 and it has rejected nothing (ghost fields of the Noise model above)"""
+    o = VObj("Noise", {"tx": VInt(0), "rx": VInt(0), "failed": VBool(False)})
+    it.ctx.event("bcall", "NoiseConnection", "from_name", list(args), dict(kwargs))
+    it.ctx.event("noise.made", o)
+    return o
+
+
+def new_machine_real(name):
+    """Cls(...) for a repository class with an Automat machine: the real attrs constructor and __attrs_post_init__ run;
+    Automat: a new machine object is in its initial state (otherwise `__state` only appears at the first input)"""
+    def h(it, klass, args, kwargs):
+        saved = it.reg.ext_models.pop("new:" + name)
+        try:
+            o = it.instantiate(klass, args, kwargs, None)
+        finally:
+            it.reg.ext_models["new:" + name] = saved
+        it.reg.automat.init_state(it, o, klass.cdef)
+        return o
+    return h
+
+
+def regf_hs(inline=()):
+    def f():
+        reg = regf_dcp()
+        from . import c13 as _c13
+        reg.boundary["*.*"] = _c13.recording_boundary
+        _c13.install_spec(reg)
+        register_classes(reg, [CTR, MGR])
+        from . import whmodels, whcontracts
+        whmodels.install_crypto(reg)
+        reg.contracts[whcontracts.DERIVE_KEY.target] = whcontracts.DERIVE_KEY
+        for c in HS_CONTRACTS:
+            reg.contracts[c.target] = c
+        for t in inline:
+            reg.contracts.pop(t, None)
+        reg.ext_models[f"global:wormhole/_dilation/_noise.py:NoiseConnection"] = lambda it: VObj("NoiseConnection")
+        reg.boundary["NoiseConnection.from_name"] = noise_from_name
+        for cls in ("DilatedConnectionProtocol", "_Framer", "_Record"):
+            reg.ext_models["new:" + cls] = new_machine_real(cls)
+        reg.class_fields["DilatedConnectionProtocol"] = dict(DCP_NEW_FIELDS, transport="obj[Transport]", _record="obj[_Record]")
+        reg.class_fields["_Record"]["_role"] = "opaque[Role]"
+        reg.class_fields["Connector"] = {"_dilation_key": "bytes", "_role": "opaque[Role]", "_eventual_queue": "obj[EventualQueueB]"}
+
+        def noise_made(it, k):
+            evs = [e for e in it.ctx.trace if e[0] == "noise.made"]
+            k = it.concrete(k)
+            return evs[k][1][0] if k < len(evs) else VObj("<missing>")
+
+        reg.spec_funcs["noise_made"] = noise_made
+        return reg
+    return f
+
+
 def regf_gen():
     reg = regf()
     reg.automat = AutomatSupport()
@@ -795,6 +1011,8 @@ def tasks():
         out.append(ContractTask(c, _wrap(regf_lemma) if c.target == "lemma:record_roundtrip" else _wrap(regf)))
     for c in GEN_CONTRACTS:
         out.append(ContractTask(c, regf_dcp if "DilatedConnectionProtocol" in c.target else regf_gen))
+    for c in HS_CONTRACTS:
+        out.append(ContractTask(c, regf_hs(inline=HS_INLINE.get(c.target, ()))))
     return out
 
 
@@ -812,6 +1030,11 @@ TRUSTED = ["z3/cvc5", "pyvc semantics of the Python subset (slicing normalisatio
            "raises NoiseInvalidMessage iff not noise_ok(n, c), else returns noise_dec(n, c) (16 bytes shorter) and advances rx; "
            "read_message either rejects the handshake or accepts it; write_message returns at most 65535 bytes; that only a "
            "holder of the dilation key can produce a c with noise_ok(n, c) is the AEAD idealisation (not proved)",
+           "noiseprotocol set-up calls: NoiseConnection.from_name(name) returns a new connection object (ghost nonce counters 0, "
+           "nothing rejected); set_psks / set_as_initiator / set_as_responder / start_handshake are recorded boundary calls "
+           "(receiver, arguments, order are proved). That Noise_NNpsk0 completes exactly between one initiator and one responder "
+           "holding the same PSK - so two Leaders, two Followers or a peer without the dilation key fail at read_message - is the "
+           "Noise handshake idealisation behind `noise_read_message` (assumed)",
            "Twisted: an exception escaping dataReceived makes the reactor drop the connection; transport.loseConnection() "
            "stops further dataReceived calls"]
 ASSUMPTIONS = [
@@ -825,11 +1048,27 @@ ASSUMPTIONS = [
     "subprotocol) raises ValueError / UnicodeDecodeError out of dataReceived, a second KCM or a record before any KCM raises "
     "automat.NoTransition; in each case nothing at all happens after the offending token (proved) and the connection is "
     "dropped by Twisted (trusted), not by loseConnection()",
-    "preconditions of the inbound loops (stated, established by DilatedConnectionProtocol.connectionMade, which is not under "
-    "contract: it builds the framer / record objects with attrs validators and zope interfaces): the role is set, framer and "
-    "record machines are in lock step (framer want_frame <=> record past want_prologue_*), _can_send_frames <=> want_frame, "
-    "Noise has rejected nothing so far, selected <=> a manager is set",
+    "preconditions of the inbound loops: the role is set, framer and record machines are in lock step (framer want_frame <=> "
+    "record past want_prologue_*), _can_send_frames <=> want_frame, Noise has rejected nothing so far, selected <=> a manager is "
+    "set. They are now ESTABLISHED under contract: DilatedConnectionProtocol.connectionMade (real _Framer / _Record "
+    "construction and tables) ensures the two link invariants and leaves the Noise object untouched, Connector.build_protocol "
+    "returns a protocol that is unselected, without manager, whose Noise object is new (nonce counters 0, nothing rejected); "
+    "dataReceived re-establishes them (its ensures). That the calls in between (select(), got_kcm - C11's contracts - and "
+    "send_record, which touches only the sending nonce) keep them is the induction these per-call statements are the steps of "
+    "(argued, not one machine-checked run)",
+    "attrs validators are not executed by the interpreter (instance_of(bytes) on the prologues, provides(ITransport) / "
+    "provides(IFramer), _Record's `_is_role`): their conditions appear as the field types of the contracts and as the "
+    "precondition has_role(self._role) of connectionMade (with any other role value the real constructor raises ValueError "
+    "inside connectionMade; the Manager only ever hands LEADER or FOLLOWER to the Connector: C11 choose_role)",
+    "connectionMade with a relay: only the relay handshake is written and the framer waits for b'ok\\n'; the prologue then goes "
+    "out on got_relay_ok inside add_and_parse (proved there: the one write of that iteration is _outbound_prologue). "
+    "connectionMade's precondition `_use_relay => _relay_handshake is not None` is what DilatedConnectionProtocol.use_relay, "
+    "the only writer of both fields, ensures (proved); Twisted's Protocol.makeConnection sets .transport before connectionMade",
+    "Dilator.got_key: the dilation key is derive_key(wormhole key, b'dilation-v1', 32) (proved, derive_key by its C01 contract: "
+    "HKDF with the purpose as info); that this value is what reaches Connector._dilation_key (Manager.got_dilation_key stores it, "
+    "Manager._start_connecting passes it to Connector(...)) is plain data flow, argued here (C17 runs the real constructor call)",
+    "lemma:prologues_cross_match runs the real build_protocol / connectionMade / _get_expected bodies for one Leader and one "
+    "Follower Connector; the literal prologues and the Noise protocol name in the clauses are those of docs/dilation-protocol.md",
     "any chunking: proved per call of add_and_parse for an arbitrary buffered remainder and an arbitrary chunk (old buffer + "
     "data == consumed handshake bytes ++ be4-framed frames yielded in order ++ new remainder, remainder holds no complete "
-    "token); the composition over a sequence of calls is the induction this per-call statement is the step of (argued)",
-    "Connector.build_protocol (psk = dilation key, leader = initiator, opposite prologues) is not under contract here"]
+    "token); the composition over a sequence of calls is the induction this per-call statement is the step of (argued)"]
